@@ -182,6 +182,49 @@ class SlowHolderStrategy(Strategy):
         return self.base.choose(sched, cands, can_time)
 
 
+class SlowAfterEventStrategy(Strategy):
+    """Adversarial schedule family: the thread that logs the `nth` event matching `start` (a dict of required fields) is slow from
+    then on - passed over while anybody else can run, stalled for at most `stall` virtual seconds - until it logs an event whose name
+    is in `until` (or the budget is used up).  Reaches "this thread is descheduled right after X" windows deterministically."""
+
+    def __init__(self, base, start, nth=1, until=("FnEnter", "BodyEnd"), budget=800, stall=0.5):
+        self.base, self.start, self.nth, self.until = base, dict(start), nth, set(until)
+        self.budget, self.spent, self.stall, self.stalled = budget, 0, stall, 0.0
+        self.seen, self.pos, self.slow = 0, 0, None
+        self.crash_at = getattr(base, "crash_at", None)
+
+    def on_step(self, sched):
+        self.base.on_step(sched)
+
+    def _scan(self, sched):
+        evs = sched.events
+        while self.pos < len(evs):
+            x = evs[self.pos]
+            self.pos += 1
+            if self.slow is None and all(x.get(k) == v for k, v in self.start.items()):
+                self.seen += 1
+                if self.seen == self.nth:
+                    self.slow = x.get("th")
+            elif self.slow is not None and x.get("th") == self.slow and x.get("ev") in self.until:
+                self.slow = "-done-"
+
+    def choose(self, sched, cands, can_time):
+        self._scan(sched)
+        slow = [t for t in cands if t.name == self.slow]
+        if slow and self.spent < self.budget:
+            if len(slow) < len(cands):
+                self.spent += 1
+                return self.base.choose(sched, [t for t in cands if t not in slow], False)
+            if can_time:
+                dl = sched._next_deadline()
+                delta = max(0.0, dl.deadline - sched.now) if dl is not None else None
+                if delta is not None and self.stalled + delta <= self.stall:
+                    self.stalled += delta
+                    self.spent += 1
+                    return "TIME"
+        return self.base.choose(sched, cands, can_time)
+
+
 class ScriptedStrategy(Strategy):
     """Follow a recorded list of choices (thread names or "TIME"); fall back to `fallback` afterwards/if impossible."""
 
